@@ -7,6 +7,8 @@ use serde_json::{json, Value};
 pub struct Api {
     pub write: fn(usize, &Value, &mut UperWriter) -> Option<Result<(), asn1rs::protocol::per::Error>>,
     pub read: fn(usize, &mut UperReader<Bits<'_>>) -> Result<Value, asn1rs::protocol::per::Error>,
+    pub pwrite: fn(usize, &Value, &mut ProtobufWriter<'_>) -> Option<Result<(), asn1rs::protocol::protobuf::Error>>,
+    pub pread: fn(usize, &mut ProtobufReader<'_>) -> Result<Value, asn1rs::protocol::protobuf::Error>,
     pub types: &'static [usize],
 }
 
@@ -26,6 +28,7 @@ pub fn main(api: Api) {
         }
         "versions" => versions(&api, &args[2], &mut out),
         "decode" => decode(&api, &args[2], &mut out, &kv),
+        "proto" => proto(&api, &args[2], &mut out, &kv),
         other => {
             eprintln!("unknown domain {}", other);
             std::process::exit(2);
@@ -413,6 +416,123 @@ fn decode(api: &Api, input: &str, out: &mut Out, kv: &Kv) {
     }
     if let Some(o) = outcomes.as_mut() {
         let _ = o.flush();
+    }
+    out.line(&json!({"summary": true, "cases": n, "stats": stats}));
+}
+
+/// proto3 default equivalence on the JSON value encoding: an absent OPTIONAL ([]) equals a present default-ish value.
+fn proto_eq(a: &Value, b: &Value) -> bool {
+    fn defaultish(v: &Value) -> bool {
+        match v {
+            Value::Number(n) => n.as_i64() == Some(0),
+            Value::Bool(b) => !*b,
+            Value::Array(a) => a.is_empty(),
+            _ => false,
+        }
+    }
+    match (a, b) {
+        (Value::Array(x), Value::Array(y)) => {
+            if x.len() == y.len() {
+                x.iter().zip(y.iter()).all(|(p, q)| proto_eq(p, q))
+            } else if x.is_empty() && y.len() == 1 {
+                defaultish(&y[0])
+            } else if y.is_empty() && x.len() == 1 {
+                defaultish(&x[0])
+            } else {
+                false
+            }
+        }
+        (Value::Object(x), Value::Object(y)) => x.len() == y.len() && x.iter().all(|(k, v)| y.get(k).map(|w| proto_eq(v, w)).unwrap_or(false)),
+        _ => a == b,
+    }
+}
+
+/// C17 (+ bytes for C18): protobuf writer (growable and fixed-slice back end) and reader on the compiled zoo, under a watchdog.
+fn proto(api: &Api, input: &str, out: &mut Out, kv: &Kv) {
+    use std::io::Write;
+    let start = kv_u64(kv, "start", 0) as usize;
+    let mut progress = crate::sandbox::Progress::new(kv.get("progress").expect("progress=<file>"), std::time::Duration::from_secs(3));
+    let mut events = kv.get("events").map(|p| std::io::BufWriter::new(std::fs::OpenOptions::new().create(true).append(true).open(p).expect("events file")));
+    let mut stats: std::collections::BTreeMap<String, u64> = Default::default();
+    let mut n = 0u64;
+    for (i, c) in read_lines(input) {
+        if i < start {
+            continue;
+        }
+        n += 1;
+        let ti = usize_of(&c["ti"]);
+        let v = &c["v"];
+        let devname = c["dev"].as_str().unwrap_or("");
+        progress.begin(i);
+        let base = crate::alloc::reset_peak();
+        let mut produced: Option<Vec<u8>> = None;
+        let r = guarded(|| -> Result<Vec<u8>, (String, String)> {
+            let mut w = ProtobufWriter::default();
+            match (api.pwrite)(ti, v, &mut w) {
+                None => return Err(("harness".into(), "value not constructible".into())),
+                Some(Err(e)) => return Err(("write".into(), format!("growable writer failed: {:?}", e))),
+                Some(Ok(())) => {}
+            }
+            let bytes = w.as_bytes().to_vec();
+            produced = Some(bytes.clone());
+            // the fixed-slice back end must produce identical bytes
+            let mut buf = vec![0u8; bytes.len() + 16];
+            let written = {
+                let mut ws = ProtobufWriter::from(&mut buf[..]);
+                match (api.pwrite)(ti, v, &mut ws) {
+                    Some(Ok(())) => ws.as_bytes().to_vec(),
+                    Some(Err(e)) => return Err(("backends".into(), format!("fixed-slice writer failed: {:?}", e))),
+                    None => unreachable!(),
+                }
+            };
+            if written != bytes {
+                return Err(("backends".into(), format!("fixed-slice back end wrote {} instead of {}", hex(&written), hex(&bytes))));
+            }
+            let mut r = ProtobufReader::from(&bytes[..]);
+            match (api.pread)(ti, &mut r) {
+                Err(e) => Err(("read".into(), format!("reader failed on the writer's bytes {}: {:?}", hex(&bytes), e))),
+                Ok(x) => {
+                    if x == *v || proto_eq(&x, v) {
+                        Ok(bytes)
+                    } else {
+                        Err(("roundtrip".into(), format!("read back {} (bytes {})", x, hex(&bytes))))
+                    }
+                }
+            }
+        });
+        let peak = crate::alloc::peak_since(base);
+        progress.end();
+        // C18 judges the writer's bytes against the declared schema whether or not the reader copes with them
+        if let (Some(bytes), true) = (&produced, devname.is_empty()) {
+            if let Some(e) = events.as_mut() {
+                let _ = writeln!(e, "{}", json!({"ti": ti, "v": v, "bytes": bytes}));
+                let _ = e.flush(); // the process may be ended by the watchdog at the next case
+            }
+        }
+        let problem = match r {
+            Ok(Ok(bytes)) => {
+                if peak > (64usize << 20) {
+                    Some(("alloc".to_string(), format!("peak allocation {} bytes", peak)))
+                } else {
+                    *stats.entry("ok".into()).or_insert(0) += 1;
+                    let _ = bytes;
+                    None
+                }
+            }
+            Ok(Err(x)) => Some(x),
+            Err(p) => Some(("panic".to_string(), format!("panic: {}", p))),
+        };
+        if let Some((class, why)) = problem {
+            if !devname.is_empty() {
+                *stats.entry(format!("dev:{}", devname)).or_insert(0) += 1;
+                continue;
+            }
+            *stats.entry(format!("bad:{}", class)).or_insert(0) += 1;
+            out.line(&json!({"line": i, "class": class, "why": why, "case": c}));
+        }
+    }
+    if let Some(e) = events.as_mut() {
+        let _ = e.flush();
     }
     out.line(&json!({"summary": true, "cases": n, "stats": stats}));
 }
